@@ -59,10 +59,11 @@ Proof.
 Qed.
 Ltac conj := repeat match goal with |- _ /\ _ => split end.
 
-(* configuration C: rank `me` (the value MPI_Comm_rank stores), fopen returns fo_ret and leaves errno = fo_errno, the broadcast
-   delivers bc_out (on the root: its own value), sc_io_error_class = errclass CfgC *)
+(* configuration C: rank `me` (the value MPI_Comm_rank stores), fopen returns fo_ret and leaves errno = fo_errno - ANY value,
+   also when fopen succeeded -, the broadcast delivers bc_out (on the root: its own value = `open_judge`: errno only if the
+   stream is NULL; repair of F-C12j), sc_io_error_class = errclass CfgC *)
 Lemma gen_open_C : forall me amode comm fname info fileptr szof mret size_out size_ret rank_ret errno0 fo_errno fo_ret bc_out bc_ret ec_ret,
-  valid_amode amode -> (me = 0 -> bc_out = fo_errno) ->
+  valid_amode amode -> (me = 0 -> bc_out = open_judge (nz fo_ret) fo_errno) ->
   let '(pm_called, pm_arg0, malloc_called, malloc_arg1, csize_called, csize_arg0, crank_called, crank_arg0, fopen_called,
         fopen_arg0, fopen_arg1, bc_called, bc_in0, bc_arg1, bc_arg2, bc_root, bc_comm, ec_called, ec_arg0, free_called, free_arg1,
         ok, hdl, file, ret) :=
@@ -84,11 +85,12 @@ Proof.
   - apply Z.eqb_eq in Eme. specialize (Hroot Eme). subst bc_out. subst me.
     change (r1 [b2z (nz fo_ret); fo_errno]) with fo_errno.
     change (r0 [b2z (nz fo_ret); fo_errno]) with (b2z (nz fo_ret)).
-    destruct (errclass CfgC fo_errno =? 0) eqn:Ec;
+    unfold nz, open_judge. destruct (fo_ret =? 0) eqn:Ef; cbn [negb b2z Z.eqb];
+      [|change (errclass CfgC 0) with 0];
+      try (destruct (errclass CfgC fo_errno =? 0) eqn:Ec);
       cbn -[errclass mode_code mode_code_of_str mode_str mode_of_amode]; rewrite ?Ec;
       cbn -[errclass mode_code mode_code_of_str mode_str mode_of_amode]; rewrite mode_code_of_str_ok;
-      (conj; try reflexivity; try apply ok4; try discriminate; auto).
-    unfold nz; destruct (fo_ret =? 0); reflexivity.
+      (conj; try reflexivity; try apply ok4; try discriminate; auto); rewrite ?Ef; reflexivity.
   - change (hd 0 [bc_out]) with bc_out.
     destruct (errclass CfgC bc_out =? 0) eqn:Ec;
       cbn -[errclass mode_code mode_code_of_str mode_str mode_of_amode]; rewrite ?Eme, ?Ec;
@@ -104,11 +106,12 @@ Lemma gen_open_A : forall amode comm fname info fileptr szof mret size_out size_
         fopen_arg0, fopen_arg1, bc_called, bc_in0, bc_arg1, bc_arg2, bc_root, bc_comm, ec_called, ec_arg0, free_called, free_arg1,
         ok, hdl, file, ret) :=
     sc_io_open_A comm fname amode info fileptr (snd (sc_io_parse_access_mode_A amode 0)) szof mret size_out size_ret 0 rank_ret
-                 errno0 fo_errno fo_ret fo_errno bc_ret (errclass CfgA fo_errno) ec_ret in
+                 errno0 fo_errno fo_ret (open_judge (nz fo_ret) fo_errno) bc_ret (errclass CfgA (open_judge (nz fo_ret) fo_errno)) ec_ret in
   obs (open_prog CfgA 0 amode kfin) [[b2z (nz fo_ret); fo_errno]]
   = ((if fopen_called =? 1 then [Coll K_FOPEN 0 [mode_code_of_str fopen_arg1]] else []),
      Some [ret; malloc_called - free_called; if free_called =? 1 then 0 else b2z (nz file)])
-  /\ bc_in0 = fo_errno /\ pm_called = 1 /\ pm_arg0 = amode /\ ec_called = 1 /\ ec_arg0 = fo_errno /\ fopen_arg0 = fname
+  /\ bc_in0 = open_judge (nz fo_ret) fo_errno /\ pm_called = 1 /\ pm_arg0 = amode /\ ec_called = 1
+  /\ ec_arg0 = open_judge (nz fo_ret) fo_errno /\ fopen_arg0 = fname
   /\ (free_called = 1 -> free_arg1 = mret /\ hdl = 0) /\ (free_called = 0 -> hdl = mret)
   /\ (ok = 1 <-> size_ret = 0 /\ rank_ret = 0 /\ bc_ret = 0 /\ ec_ret = 0).
 Proof.
@@ -119,11 +122,12 @@ Proof.
   change ocA_SC3_MPI_SUCCESS with 0.
   change (r1 [b2z (nz fo_ret); fo_errno]) with fo_errno.
   change (r0 [b2z (nz fo_ret); fo_errno]) with (b2z (nz fo_ret)).
-  destruct (errclass CfgA fo_errno =? 0) eqn:Ec;
+  unfold nz, open_judge. destruct (fo_ret =? 0) eqn:Ef; cbn [negb b2z Z.eqb];
+    [|change (errclass CfgA 0) with 0];
+    try (destruct (errclass CfgA fo_errno =? 0) eqn:Ec);
     cbn -[errclass mode_code mode_code_of_str mode_str mode_of_amode]; rewrite ?Ec;
     cbn -[errclass mode_code mode_code_of_str mode_str mode_of_amode]; rewrite mode_code_of_str_ok;
-    (conj; try reflexivity; try apply ok4; try discriminate; auto).
-  unfold nz; destruct (fo_ret =? 0); reflexivity.
+    (conj; try reflexivity; try apply ok4; try discriminate; auto); rewrite ?Ef; reflexivity.
 Qed.
 
 (* ------------------------------------------------------------------ sc_io_close without MPI I/O *)
